@@ -48,6 +48,8 @@ def run(ctx):
     rnd = random.Random(ctx.seed)
     q = ctx.quick
     ctx.mc('MC_Cond', workers=4)
+    # the SPECIFICATION's own steps satisfy the property on the decode skeleton (Props!SpecStepOK)
+    ctx.mc('MC_Decode', constants={'MODES': '{19}' if q else '{16, 19}'}, coverage=False)
     tasks = []
     # all 2^16 16-bit Thumb words; quick: one IT position per word (rotating), thorough: all three
     for i in range(16):
